@@ -140,11 +140,15 @@ func (d *fnDump) classifyFailure(f failure) string {
 	return ""
 }
 
-var missedRe = regexp.MustCompile(`//\s*missed \(([A-Za-z0-9]+)\)`)
+var missedRe = regexp.MustCompile(`//\s*(?:missed \(|reported \(was missed: )([A-Za-z0-9]+)`)
 var reportedRe = regexp.MustCompile(`//\s*reported`)
 
 // runCorpus replays the recorded inputs: end to end on the real taint analysis (+ native run) and
-// through the criterion machinery. Returns the shapes the criterion flagged per finding id.
+// through the criterion machinery.  A sink line marked `// missed (ID)` is an open finding; one marked
+// `// reported (was missed: ID, repaired by <commit>)` is a regression case of a repaired finding: in both
+// cases a flow that is not reported (or a summary whose criterion failure has the shape ID) is reported
+// under the finding's key — KNOWN-FINDING while the entry of known_findings.json is open, VIOLATION
+// once it is marked fixed.
 func runCorpus(rep *lib.Report) {
 	root := filepath.Join(lib.Root(), "corpus", "findings")
 	for _, name := range []string{"F02_F03_builtins", "C08a_return_index", "C08b_commaok_extract", "C08c_dup_arg_value"} {
